@@ -199,7 +199,25 @@ def find_member_loop(fn):
     return outer
 
 
-class StepInterp(Interp):
+class Budgeted(Interp):
+    """Engine I with a CPU budget: `deadline` is a time.process_time() value (CPU, so machine load does not
+    turn a fast exploration into an undecided one); past it the exploration ends with AnalysisBroken, i.e.
+    undecided, never a hang and never a verdict"""
+    deadline = None
+
+    def set_budget(self, seconds):
+        import time
+        self.deadline = time.process_time() + seconds
+
+    def call_fn(self, unit, fn, args):
+        if self.deadline is not None:
+            import time
+            if time.process_time() > self.deadline:
+                raise AnalysisBroken('exploration budget exceeded in %s()' % fn.name)
+        return Interp.call_fn(self, unit, fn, args)
+
+
+class StepInterp(Budgeted):
     """Engine I where the loop `target` is not iterated from its concrete entry state:
        mode 'step': integer locals the loop writes are replaced by fresh symbols (havoc),
                     `on_entry(it, env)` installs the symbolic pre-state on the heap,
@@ -247,20 +265,14 @@ class StepInterp(Interp):
         return Interp.exec_do(self, s, env)
 
 
-class IterInterp(Interp):
+class IterInterp(Budgeted):
     """Engine I where the loops named in `deep` (node ids) get `deep_limit` generic iterations and
     every other loop `loop_limit`: a property of the 2nd pass through one loop (state that survives
-    an iteration) is explored without squaring the paths of all the other loops.
-    `deadline` (time.time() value) caps an exploration: AnalysisBroken, i.e. undecided, never a hang"""
+    an iteration) is explored without squaring the paths of all the other loops"""
     deep = frozenset()
     deep_limit = 2
-    deadline = None
 
     def _with_limit(self, s, f, *a):
-        if self.deadline is not None:
-            import time
-            if time.time() > self.deadline:
-                raise AnalysisBroken('exploration budget exceeded at %s:%d' % (self.unit.name, s.line))
         old = self.loop_limit
         self.loop_limit = self.deep_limit if s.id in self.deep else old
         try:
